@@ -8,7 +8,7 @@ use xeh::prelude::*;
 pub const DEF: PropDef = PropDef {
     id: "C07",
     rule: "field lists (1-12 fields quick, 1-40 thorough) of Int{width 1..128, signed|unsigned(<=127), byte order, value incl. boundary values}, F32/F64{order, any bit pattern held in a variable}, Raw{0-40 bits, as a literal or as a slice cut out of a larger buffer at a non-zero bit offset}, Str{utf-8}, Bytes{ints inline, as a list, in nested vectors}; in (a) the field sequence is additionally bracketed into nested vectors at generated places; byte order switched between fields with big/little or fixed by the uNle!/uNbe! spellings. \
-(a) `[ f1 .. fn ] >bitstr`; (b) output interception on and the same fields emitted over a generated partition into 1..n emit calls; then `open-bitstr` + the matching read word per field + remain. \
+(a) `[ f1 .. fn ] >bitstr`; (b) output interception on and the same fields emitted over a generated partition into 1..n emit calls - evaluated directly or (1 in 4) compiled and driven like a debugger does: stepped to the end, stepped back part or all of the way (then output / output-length must be what was emitted before the source), and run again; then `open-bitstr` + the matching read word per field + remain. \
 Oracle: product length = sum of widths and its bits = concatenation of a reference encoding of every field; parsed values = originals reduced to the field; remain = 0; `output` = product bit for bit, `output-length` = its length, for every partition. \
 Non-trivial = a little-endian or multi-byte field starts off a byte boundary, or a partition with >=2 emits has an unaligned seam; distinct = hash of the field list and partition",
     assumptions: &[
@@ -462,6 +462,7 @@ pub fn case(ch: &mut Choices, ctx: &CaseCtx) -> CaseOut {
     }
     // ---- (b) emits ---------------------------------------------------------------
     let mut unaligned_seam = false;
+    let mut stepped_any = false;
     if out.fail.is_none() {
         let mut xb = xs0.clone();
         xb.intercept_output(true).unwrap();
@@ -471,6 +472,12 @@ pub fn case(ch: &mut Choices, ctx: &CaseCtx) -> CaseOut {
         let mut srcs: Vec<String> = Vec::new();
         let _ = guard(|| xb.eval(if start_big { "big" } else { "little" }));
         cur = start_big || cur && false;
+        let stepped = ch.chance(1, 4);
+        let back_all = ch.bool();
+        if stepped {
+            xb.set_recording_enabled(true);
+            stepped_any = true;
+        }
         for &hi in &cuts {
             let single = hi - lo == 1 && ch.bool() && !matches!(fields[lo], Field::Str(_) | Field::Bytes(..));
             let mut s = String::new();
@@ -485,8 +492,47 @@ pub fn case(ch: &mut Choices, ctx: &CaseCtx) -> CaseOut {
                 }
                 s.push_str("] >bitstr emit");
             }
-            srcs.push(s.clone());
-            match guard(|| xb.eval(&s)) {
+            srcs.push(if stepped { format!("(stepped to the end, {} back, run) {}", if back_all { "all the way".to_string() } else { "part of the way".to_string() }, s) } else { s.clone() });
+            let before_bits = emitted;
+            let mut rewound: Option<(Option<Cell>, Option<Cell>)> = None;
+            let r = if !stepped {
+                guard(|| xb.eval(&s))
+            } else {
+                // the same source driven the way a debugger drives it: forward step by step, back, forward again
+                let frac = ch.below(4) + 1;
+                guard(|| {
+                    xb.compile(&s)?;
+                    let mut steps = 0usize;
+                    while xb.is_running() {
+                        xb.next()?;
+                        steps += 1;
+                    }
+                    let back = if back_all { steps } else { (steps * frac / 5).max(1).min(steps) };
+                    for _ in 0..back {
+                        xb.rnext()?;
+                    }
+                    if back == steps {
+                        rewound = Some((xb.get_var_value("output").ok().cloned(), xb.get_var_value("output-length").ok().cloned()));
+                    }
+                    xb.run()
+                })
+            };
+            if let Some((o, l)) = rewound {
+                let okb = match o.as_ref().map(|c| c.value().clone()) {
+                    Some(Cell::Bitstr(b)) => bits_of(&b) == model[..before_bits],
+                    Some(Cell::Nil) | None => before_bits == 0,
+                    _ => false,
+                };
+                let okl = match l.as_ref().map(|c| c.value().clone()) {
+                    Some(Cell::Int(x)) => x == before_bits as i128,
+                    _ => false,
+                };
+                if !okb || !okl {
+                    fail(&mut out, "emit: stepping back over the emits does not leave output / output-length at what was emitted before them", format!("`{}` rewound: output {} length {:?}, expected {} ({} bits)", s, o.map(|c| xs::render(&c)).unwrap_or_default(), l.map(|c| xs::render(&c)), show(&model[..before_bits]), before_bits), &rendered);
+                    break;
+                }
+            }
+            match r {
                 Ok(Ok(())) => {}
                 Ok(Err(e)) => {
                     fail(&mut out, "emit: failed", format!("{} in `{}`", xs::render_err(&e), s), &rendered);
@@ -543,6 +589,9 @@ pub fn case(ch: &mut Choices, ctx: &CaseCtx) -> CaseOut {
     }
     if fields.iter().any(|f| matches!(f, Field::F32 { .. } | Field::F64 { .. })) {
         out.class("float");
+    }
+    if stepped_any {
+        out.class("emits-driven-by-step-back-and-forth");
     }
     if grouped {
         out.class("nested-vector-groups");
